@@ -68,8 +68,13 @@
 (*             separate logger object with the name pywbem.listener.{id}". *)
 (*             Evaluated on the snapshot every API call event carries, i.e.*)
 (*             in every lifecycle state.                                   *)
+(*             host, certfile, keyfile, max_ind_queue_size: the values the *)
+(*             constructor was given (certfile/keyfile: "None means there  *)
+(*             is no certificate file being used (that is, no port is set  *)
+(*             up for HTTPS)").                                            *)
 (*   .PortsAsConfigured / .LoggerStable / .StartedReflectsServer           *)
-(*   .NoPortNoStart / .UnchangedByNonLifecycleCall                         *)
+(*   .NoPortNoStart / .UnchangedByNonLifecycleCall / .ReadNeverRaises      *)
+(*   .ConstructorArgumentsKept                                             *)
 (*                                                                         *)
 (* Events (all fields present in every event, monomorphic):                *)
 (*   ev  "init"     constructor returned: arg_http, arg_https (-1 = None)  *)
@@ -86,6 +91,7 @@
 (*   snapshot: http_port https_port http_started https_started (properties)*)
 (*       up_http up_https (server really serving) cb_threads srv_threads   *)
 (*       (live threads) open_srv (server sockets not closed) logger_ok     *)
+(*       consts_ok (host/certfile/keyfile/max_ind_queue_size as given)     *)
 (***************************************************************************)
 EXTENDS Integers, Sequences, FiniteSets, TLC
 
@@ -126,6 +132,7 @@ PropsAlways(s, e) ==
      F("Props.PortsAsConfigured",
        e.http_port = s.http /\ e.https_port = s.https)
 \cup F("Props.LoggerStable", e.logger_ok)
+\cup F("Props.ConstructorArgumentsKept", e.consts_ok)
 \cup F("Props.NoPortNoStart",
        (s.http = -1 => ~e.http_started) /\ (s.https = -1 => ~e.https_started))
 
@@ -198,6 +205,7 @@ Fails(s, e) ==
        F("Props.PortsAsConfigured",
          e.http_port = e.arg_http /\ e.https_port = e.arg_https)
   \cup F("Props.LoggerStable", e.logger_ok)
+  \cup F("Props.ConstructorArgumentsKept", e.consts_ok)
   \cup F("Props.StartedReflectsServer",
          e.http_started = e.up_http /\ e.https_started = e.up_https)
   \cup StoppedSnapshot("Init", e)
